@@ -1,4 +1,6 @@
 import PqModel.Spec.Thrift
+import PqModel.Spec.Snappy
+import PqModel.Spec.PageDecode
 import PqModel.Layout
 
 /-! Spec side of C02: an independent structural reader of Parquet files written from
@@ -6,7 +8,13 @@ import PqModel.Layout
     (by parsing page headers at the offsets the metadata announces), the offset and column
     indexes, re-derives the layout numbers with `Layout.chunkMeta` (the accounting model whose
     correctness is `Layout.layout_wf`) and reports every clause in which the file's metadata
-    disagrees with the bytes that are present. Field ids are those of parquet.thrift. -/
+    disagrees with the bytes that are present. Field ids are those of parquet.thrift.
+
+    Value level (chunks stored UNCOMPRESSED or with SNAPPY): every page body is decompressed with
+    the spec Snappy reader (`Spec.Snappy`) and decoded with the SPEC decoders of the encodings
+    (`Spec.PageDecode`): repetition/definition levels, dictionary, values. The counts the headers
+    and indexes announce are compared with what was decoded, and `dumpFile` returns the Dremel
+    streams (value, repetition level, definition level) of every leaf column. -/
 namespace PqModel.Spec
 open PqModel.Layout
 
@@ -15,6 +23,7 @@ structure Leaf where
   ptype : Nat
   maxRep : Nat
   maxDef : Nat
+  typeLen : Nat := 0     -- type_length of the schema element (FIXED_LEN_BYTE_ARRAY)
 deriving Repr
 
 /-- walk the depth-first schema element list; returns the leaves below `n` children -/
@@ -30,7 +39,7 @@ def schemaLeaves : Nat → List TVal → Nat → List String → Nat → Nat →
     let nc := TVal.nat (e.field? 5)
     if nc == 0 then
       match schemaLeaves fuel rest k path rep dfn with
-      | .ok (ls, rest') => .ok (⟨path ++ [name], TVal.nat (e.field? 1), rep', dfn'⟩ :: ls, rest')
+      | .ok (ls, rest') => .ok (⟨path ++ [name], TVal.nat (e.field? 1), rep', dfn', TVal.nat (e.field? 2)⟩ :: ls, rest')
       | .error x => .error x
     else
       match schemaLeaves fuel rest nc (path ++ [name]) rep' dfn' with
@@ -59,6 +68,9 @@ structure PageInfo where
   hasStats : Bool
   v2Compressed : Bool := true   -- v2: is_compressed (default true)
   bodyPos : Nat := 0
+  repLen : Nat := 0      -- v2: repetition_levels_byte_length
+  defLen : Nat := 0      -- v2: definition_levels_byte_length
+  levelEncs : List Nat := []   -- v1: definition_level_encoding, repetition_level_encoding
 
 /-- walk the pages of a chunk: `n` bytes starting at `pos` -/
 def walkPages (d : ByteArray) (checkCrc : Bool) : Nat → Nat → Nat → List PageInfo → Except String (List PageInfo)
@@ -93,7 +105,10 @@ def walkPages (d : ByteArray) (checkCrc : Bool) : Nat → Nat → Nat → List P
           op := { isDict := ptype == 2, hdrLen := bodyPos - pos, bodyLen := comp, uncompLen := uncomp, numValues := nv, numRows := nr },
           offset := pos, ptype := ptype, encoding := enc, crcOk := crcOk, numNulls := nn, levelsLen := ll, hasStats := st,
           v2Compressed := (match (h.field? 8).bind (·.field? 7) with | some (.bool b) => b | _ => true),
-          bodyPos := bodyPos }
+          bodyPos := bodyPos,
+          repLen := TVal.nat ((h.field? 8).bind (·.field? 6)),
+          defLen := TVal.nat ((h.field? 8).bind (·.field? 5)),
+          levelEncs := if ptype == 0 then [TVal.nat ((h.field? 5).bind (·.field? 3)), TVal.nat ((h.field? 5).bind (·.field? 4))] else [] }
         walkPages d checkCrc fuel (bodyPos + comp) stop (info :: acc)
 
 /-- What the stored body says about its own uncompressed size, for the codecs whose framing
@@ -116,6 +131,138 @@ def announcedSizeOk (d : ByteArray) (codec : Nat) (p : PageInfo) : Option Bool :
     if dataLen < 18 then some false else some (le d (dataPos + dataLen - 4) 4 == want % 4294967296)
   else none
 
+/-! ## value level: page bodies of UNCOMPRESSED (0) and SNAPPY (1) chunks -/
+
+/-- what one data page holds once decoded -/
+structure PageData where
+  reps : List Nat          -- one per entry (all 0 when the column is not repeated)
+  defs : List Nat          -- one per entry (all 0 when nothing is optional)
+  vals : List Value        -- the non-null values, in order
+  rows : Nat               -- entries with repetition level 0
+  nulls : Nat              -- entries with definition level below the maximum
+
+/-- the stored bytes `d[pos, pos+len)` of a page (part), decompressed when `compressed` -/
+def partBytes (d : ByteArray) (codec : Nat) (compressed : Bool) (pos len : Nat) : Except String ByteArray :=
+  if codec == 1 && compressed && len > 0 then
+    match Snappy.decodeRange d pos (pos + len) with
+    | .ok out => .ok out
+    | .error e => .error s!"snappy block does not decompress ({e})"
+  else .ok (d.extract pos (pos + len))
+
+/-- v1 level block at `pos` of the uncompressed body: `<4-byte LE length> <hybrid stream>` -/
+def levelsV1 (w nv : Nat) (body : ByteArray) (pos : Nat) (which : String) : Except String (List Nat × Nat) :=
+  if pos + 4 > body.size then .error s!"v1 {which} level block lacks its 4-byte length prefix" else
+  let len := le body pos 4
+  if pos + 4 + len > body.size then .error s!"v1 {which} level block of {len} bytes does not fit in the page body" else
+  match PqModel.Rle.specDecodeLevelsV1 w nv (sliceNat body pos (4 + len) []) with
+  | .ok l => .ok (l, pos + 4 + len)
+  | .error e => .error s!"{which} levels do not decode ({e.name})"
+
+/-- v2 level block `d[pos, pos+len)`: the hybrid stream alone -/
+def levelsV2 (w nv : Nat) (d : ByteArray) (pos len : Nat) (which : String) : Except String (List Nat) :=
+  match PqModel.Rle.specDecode w nv (sliceNat d pos len []) with
+  | .ok l => .ok l
+  | .error e => .error s!"{which} levels do not decode ({e.name})"
+
+def countP (f : Nat → Bool) : List Nat → Nat → Nat
+  | [], n => n
+  | x :: xs, n => countP f xs (if f x then n + 1 else n)
+
+/-- Decode one data page. `.error` = the page cannot be decoded (one clause); otherwise the data
+    and the clauses in which header counts and decoded counts differ. -/
+def decodeDataPage (d : ByteArray) (leaf : Leaf) (codec : Nat) (dict : Option (Array Value)) (p : PageInfo) :
+    Except String (PageData × List String) := do
+  let nv := p.op.numValues
+  let wr := PqModel.Rle.bitLen leaf.maxRep
+  let wd := PqModel.Rle.bitLen leaf.maxDef
+  let sizeClause := fun (got want : Nat) =>
+    if got == want || announcedSizeOk d codec p == some false then []
+    else [s!"stored body decompresses to {got} bytes, uncompressed_page_size leaves {want} (codec {codec})"]
+  let (reps, defs, vb, soft) ← (
+    if p.ptype == 3 then do
+      let ll := p.repLen + p.defLen
+      if ll > p.op.bodyLen || ll > p.op.uncompLen then throw "v2 level byte lengths exceed the page size"
+      let reps ← if leaf.maxRep == 0 then pure (List.replicate nv 0) else levelsV2 wr nv d p.bodyPos p.repLen "repetition"
+      let defs ← if leaf.maxDef == 0 then pure (List.replicate nv 0) else levelsV2 wd nv d (p.bodyPos + p.repLen) p.defLen "definition"
+      let vb ← partBytes d codec p.v2Compressed (p.bodyPos + ll) (p.op.bodyLen - ll)
+      pure (reps, defs, vb, sizeClause vb.size (p.op.uncompLen - ll))
+    else do
+      let body ← partBytes d codec true p.bodyPos p.op.bodyLen
+      let soft := sizeClause body.size p.op.uncompLen
+      let soft := if p.levelEncs.all (· == 3) then soft else "v1 level encoding is not RLE" :: soft
+      let (reps, pos) ← if leaf.maxRep == 0 then pure (List.replicate nv 0, 0) else levelsV1 wr nv body 0 "repetition"
+      let (defs, pos) ← if leaf.maxDef == 0 then pure (List.replicate nv 0, pos) else levelsV1 wd nv body pos "definition"
+      pure (reps, defs, body.extract pos body.size, soft) : Except String (List Nat × List Nat × ByteArray × List String))
+  let nulls := countP (· < leaf.maxDef) defs 0
+  let nonNull := defs.length - nulls
+  let rows := countP (· == 0) reps 0
+  let vals ← match decodeValues leaf.ptype leaf.typeLen p.encoding nonNull dict vb with
+    | .ok v => pure v
+    | .error (.undecodable m) => throw s!"page body does not decode (encoding {p.encoding}: {m})"
+    | .error (.dictIndex i n) => throw s!"dictionary index {i} is not below the dictionary size {n}"
+    | .error .noDict => throw s!"dictionary-encoded data page (encoding {p.encoding}) in a chunk without decodable dictionary page"
+  let soft := if reps.length == nv && defs.length == nv then soft
+    else s!"page decodes {reps.length} repetition and {defs.length} definition level entries, header announces num_values {nv}" :: soft
+  let soft := if reps.all (· ≤ leaf.maxRep) && defs.all (· ≤ leaf.maxDef) then soft
+    else s!"a level exceeds the schema maximum (max repetition {leaf.maxRep}, max definition {leaf.maxDef})" :: soft
+  let soft := if vals.length == nonNull then soft
+    else s!"page holds {vals.length} values but {nonNull} definition levels equal the maximum" :: soft
+  let soft := match reps with
+    | r :: _ => if r == 0 then soft else s!"data page does not start on a row boundary (first repetition level {r})" :: soft
+    | [] => soft
+  let soft := match p.numNulls with
+    | some n => if n == nulls then soft else s!"v2 num_nulls {n} but {nulls} definition levels are below the maximum" :: soft
+    | none => soft
+  let soft := if p.ptype != 3 || p.op.numRows == rows then soft
+    else s!"v2 num_rows {p.op.numRows} but {rows} repetition levels are 0" :: soft
+  pure ({ reps := reps, defs := defs, vals := vals, rows := rows, nulls := nulls }, soft)
+
+/-- the dictionary page: PLAIN values, `num_values` of them -/
+def decodeDictPage (d : ByteArray) (leaf : Leaf) (codec : Nat) (p : PageInfo) : Except String (Array Value × List String) := do
+  let body ← partBytes d codec true p.bodyPos p.op.bodyLen
+  let soft := if body.size == p.op.uncompLen || announcedSizeOk d codec p == some false then []
+    else [s!"stored body decompresses to {body.size} bytes, uncompressed_page_size leaves {p.op.uncompLen} (codec {codec})"]
+  if p.encoding != 0 && p.encoding != 2 then throw s!"dictionary page encoding {p.encoding} is not PLAIN"
+  match plainValues leaf.ptype leaf.typeLen p.op.numValues (sliceU8 body 0 body.size []) with
+  | .error e => throw s!"dictionary page does not decode ({e})"
+  | .ok vals =>
+    let soft := if vals.length == p.op.numValues then soft
+      else s!"dictionary page holds {vals.length} values, header announces {p.op.numValues}" :: soft
+    pure (vals.toArray, soft)
+
+/-- pages larger than this are not value-decoded (the spec decoders work on lists) -/
+def pageCapped (p : PageInfo) : Bool :=
+  p.op.uncompLen > 1048576 || p.op.bodyLen > 1048576 || p.op.numValues > 262144
+
+structure ChunkDecode where
+  problems : List String := []            -- clauses without the chunk tag, latest first
+  datas : List (Option PageData) := []    -- one per non-dictionary page, latest first
+  decoded : Nat := 0
+  capped : Nat := 0
+  dict : Option (Array Value) := none
+  dictCapped : Bool := false
+  index : Nat := 0
+
+/-- decode every page of a chunk whose codec is 0 or 1 -/
+def decodeChunkPages (d : ByteArray) (leaf : Leaf) (codec : Nat) (pages : List PageInfo) : ChunkDecode :=
+  let st := pages.foldl (fun (st : ChunkDecode) p =>
+    let st := { st with index := st.index + 1 }
+    let k := st.index - 1
+    if p.op.isDict then
+      if pageCapped p then { st with capped := st.capped + 1, dictCapped := true } else
+      match decodeDictPage d leaf codec p with
+      | .error e => { st with problems := s!"page {k}: {e}" :: st.problems }
+      | .ok (dv, soft) => { st with dict := some dv, problems := soft.map (s!"page {k}: " ++ ·) ++ st.problems }
+    else if p.ptype != 0 && p.ptype != 3 then { st with datas := none :: st.datas }
+    else if pageCapped p || (st.dictCapped && (p.encoding == 2 || p.encoding == 8)) then
+      { st with capped := st.capped + 1, datas := none :: st.datas }
+    else
+      match decodeDataPage d leaf codec st.dict p with
+      | .error e => { st with problems := s!"page {k}: {e}" :: st.problems, datas := none :: st.datas }
+      | .ok (pd, soft) => { st with datas := some pd :: st.datas, decoded := st.decoded + 1,
+                                    problems := soft.map (s!"page {k}: " ++ ·) ++ st.problems }) {}
+  { st with problems := st.problems.reverse, datas := st.datas.reverse }
+
 structure Report where
   problems : List String := []
   rowGroups : Nat := 0
@@ -126,6 +273,8 @@ structure Report where
   v2Pages : Nat := 0
   offsetIndexes : Nat := 0
   columnIndexes : Nat := 0
+  decodedPages : Nat := 0    -- data pages whose levels and values were decoded
+  cappedPages : Nat := 0     -- pages too large for the list-based spec decoders
 
 def Report.add (r : Report) (cond : Bool) (msg : String) : Report :=
   if cond then r else { r with problems := msg :: r.problems }
@@ -181,6 +330,15 @@ def checkChunk (d : ByteArray) (footerStart : Nat) (rgi ci : Nat) (leaf : Leaf) 
       let r := r.add (!allV2 || datas.isEmpty || model.numRows == rgRows) s!"{tag}: v2 pages hold {model.numRows} rows, row group announces {rgRows}"
       let r := r.add (leaf.maxRep != 0 || model.numValues == rgRows) s!"{tag}: non-repeated column holds {model.numValues} values for {rgRows} rows"
       let r := r.add (datas.all (fun p => match p.numNulls with | some n => n ≤ p.op.numValues | none => true)) s!"{tag}: v2 num_nulls exceeds num_values"
+      -- value level: decode every page of an uncompressed or snappy chunk with the spec decoders
+      let cd : ChunkDecode := if codec ≤ 1 then decodeChunkPages d leaf codec pages else {}
+      let r := cd.problems.foldl (fun (r : Report) m => r.add false s!"{tag}: {m}") r
+      let r := { r with decodedPages := r.decodedPages + cd.decoded, cappedPages := r.cappedPages + cd.capped }
+      let allDecoded := codec ≤ 1 && cd.datas.length == datas.length && cd.datas.all (·.isSome)
+      let rowsD := cd.datas.map (fun (o : Option PageData) => match o with | some pd => pd.rows | none => 0)
+      -- the row counts read off the repetition levels (this covers v1 pages of repeated columns)
+      let r := r.add (!allDecoded || datas.isEmpty || rowsD.sum == rgRows) s!"{tag}: pages hold {rowsD.sum} rows (repetition levels equal to 0), row group announces {rgRows}"
+      let firstRowsD := (specLocs first 0 (List.zipWith (fun (p : PageInfo) n => { p.op with numRows := n }) datas rowsD)).map (·.firstRow)
       -- encodings listed in the chunk metadata cover what the pages use
       let encs := (TVal.listD (m.field? 2)).map (fun e => TVal.nat (some e))
       let r := r.add (pages.all (fun p => encs.contains p.encoding)) s!"{tag}: a page uses an encoding missing from the chunk's encodings list {encs}"
@@ -207,6 +365,8 @@ def checkChunk (d : ByteArray) (footerStart : Nat) (rgi ci : Nat) (leaf : Leaf) 
           let r := r.add (!allV2 || locs.map (·.firstRow) == model.locs.map (·.firstRow)) s!"{tag}: first_row_index {locs.map (·.firstRow)} is not cumulative over page row counts {model.locs.map (·.firstRow)}"
           let r := r.add (leaf.maxRep != 0 || locs.map (·.firstRow) == (specLocs first 0 (datas.map fun p => { p.op with numRows := p.op.numValues })).map (·.firstRow))
                     s!"{tag}: first_row_index is not cumulative over page value counts (non-repeated column)"
+          let r := r.add (!allDecoded || locs.length != datas.length || locs.map (·.firstRow) == firstRowsD)
+                    s!"{tag}: first_row_index {locs.map (·.firstRow)} is not cumulative over the decoded page row counts {firstRowsD}"
           r.add (match locs with | l :: _ => l.firstRow == 0 | [] => true) s!"{tag}: first page does not start at row 0"
       -- column index
       let ciOff := TVal.nat (c.field? 6)
@@ -224,6 +384,10 @@ def checkChunk (d : ByteArray) (footerStart : Nat) (rgi ci : Nat) (leaf : Leaf) 
           let ncs := TVal.listD (cix.field? 5)
           let r := r.add (ncs.isEmpty || ncs.length == np) s!"{tag}: column index null_counts has {ncs.length} entries, null_pages {np}"
           let r := r.add (TVal.nat (cix.field? 4) ≤ 2) s!"{tag}: boundary_order out of range"
+          -- the null counts read off the definition levels must agree with the index
+          let nullsD := cd.datas.map (fun (o : Option PageData) => match o with | some pd => pd.nulls | none => 0)
+          let r := r.add (!allDecoded || ncs.isEmpty || ncs.length != datas.length || ncs.map (fun x => TVal.nat (some x)) == nullsD)
+                    s!"{tag}: column index null_counts {ncs.map (fun x => TVal.nat (some x))} differ from the decoded definition levels {nullsD}"
           -- v2 pages announce their null counts: they must agree with the index
           r.add (!allV2 || ncs.isEmpty || ncs.map (fun x => TVal.nat (some x)) == datas.map (fun p => p.numNulls.getD 0)) s!"{tag}: column index null_counts differ from the v2 page headers"
       (r, first + totalComp)
@@ -288,7 +452,92 @@ def checkFile (d : ByteArray) (maxRows : Nat) : Except String Report :=
         let r := r.add (TVal.nat (md.field? 3) == (rgs.map fun rg => TVal.nat (rg.field? 3)).sum) "file num_rows is not the sum of the row groups"
         .ok (checkRowGroups d fstart leaves maxRows rgs 0 4 r)
 
+/-! ## the Dremel streams of a file -/
+
+/-- one entry of a leaf column's stream; `val = none` is a null -/
+structure Triple where
+  val : Option Value
+  rep : Nat
+  dl : Nat
+
+/-- levels and non-null values of a page zipped into entries (prepended, reversed, to `acc`) -/
+def zipTriples (maxDef : Nat) : List Nat → List Nat → List Value → List Triple → List Triple
+  | r :: rs, dl :: ds, vals, acc =>
+    if dl == maxDef then
+      match vals with
+      | v :: vs => zipTriples maxDef rs ds vs (⟨some v, r, dl⟩ :: acc)
+      | [] => acc
+    else zipTriples maxDef rs ds vals (⟨none, r, dl⟩ :: acc)
+  | _, _, _, acc => acc
+
+/-- the entries of one column chunk (reversed, prepended to `acc`); `.ok none` = the chunk's codec
+    is neither UNCOMPRESSED nor SNAPPY -/
+def dumpChunk (d : ByteArray) (tag : String) (leaf : Leaf) (c : TVal) (acc : List Triple) : Except String (Option (List Triple)) :=
+  match c.field? 3 with
+  | none => .error s!"{tag}: no column meta data"
+  | some m =>
+    let codec := TVal.nat (m.field? 4)
+    if codec > 1 then .ok none else
+    let dataOff := TVal.nat (m.field? 9)
+    let totalComp := TVal.nat (m.field? 7)
+    let first := match TVal.int? (m.field? 11) with
+      | some o => if o.toNat > 0 && o.toNat < dataOff then o.toNat else dataOff
+      | none => dataOff
+    if first + totalComp > d.size then .error s!"{tag}: chunk past end of file" else
+    match walkPages d false (totalComp + 2) first (first + totalComp) [] with
+    | .error e => .error s!"{tag}: {e}"
+    | .ok pages =>
+      let cd := decodeChunkPages d leaf codec pages
+      match cd.problems with
+      | m :: _ => .error s!"{tag}: {m}"
+      | [] =>
+        if cd.capped > 0 then .error s!"{tag}: a page is too large for the list-based spec decoders (capped)" else
+        if !cd.datas.all (·.isSome) then .error s!"{tag}: unknown page type" else
+        .ok (some (cd.datas.foldl (fun acc o => match o with
+          | some pd => zipTriples leaf.maxDef pd.reps pd.defs pd.vals acc
+          | none => acc) acc))
+
+def dumpColumn (d : ByteArray) (leaf : Leaf) (ci : Nat) : List TVal → Nat → List Triple → Except String (Option (List Triple))
+  | [], _, acc => .ok (some acc.reverse)
+  | rg :: rgs, rgi, acc =>
+    match (TVal.listD (rg.field? 1))[ci]? with
+    | none => .error s!"rg{rgi}: no column chunk {ci}"
+    | some c =>
+      match dumpChunk d s!"rg{rgi}/col{ci}" leaf c acc with
+      | .error e => .error e
+      | .ok none => .ok none
+      | .ok (some acc) => dumpColumn d leaf ci rgs (rgi + 1) acc
+
+def dumpColumns (d : ByteArray) (rgs : List TVal) : List Leaf → Nat → Except String (List (Option (List Triple)))
+  | [], _ => .ok []
+  | leaf :: ls, ci =>
+    match dumpColumn d leaf ci rgs 0 [] with
+    | .error e => .error e
+    | .ok col =>
+      match dumpColumns d rgs ls (ci + 1) with
+      | .error e => .error e
+      | .ok cols => .ok (col :: cols)
+
+/-- the stream of every leaf column (schema order), all row groups and pages in file order;
+    `none` for a column with a chunk the spec reader cannot decompress -/
+def dumpFile (d : ByteArray) : Except String (List (Option (List Triple))) :=
+  let n := d.size
+  if n < 12 then .error "file shorter than 12 bytes" else
+  if d.extract 0 4 != "PAR1".toUTF8 then .error "missing leading magic" else
+  if d.extract (n - 4) n != "PAR1".toUTF8 then .error "missing trailing magic" else
+  let flen := le d (n - 8) 4
+  if flen + 12 > n then .error "footer length exceeds file" else
+  match readStruct d (n - 8 - flen) with
+  | .error e => .error s!"footer: {e}"
+  | .ok (md, _) =>
+    match TVal.listD (md.field? 2) with
+    | [] => .error "empty schema"
+    | root :: elems =>
+      match schemaLeaves (elems.length + 2) elems (TVal.nat (root.field? 5)) [] 0 0 with
+      | .error e => .error e
+      | .ok (leaves, _) => dumpColumns d (TVal.listD (md.field? 4)) leaves 0
+
 def Report.summary (r : Report) : String :=
-  s!"rg={r.rowGroups} chunks={r.chunks} data={r.dataPages} dict={r.dictPages} crc={r.pagesWithCrc} v2={r.v2Pages} oi={r.offsetIndexes} ci={r.columnIndexes}"
+  s!"rg={r.rowGroups} chunks={r.chunks} data={r.dataPages} dict={r.dictPages} crc={r.pagesWithCrc} v2={r.v2Pages} oi={r.offsetIndexes} ci={r.columnIndexes} decoded={r.decodedPages} capped={r.cappedPages}"
 
 end PqModel.Spec
